@@ -1487,7 +1487,7 @@ class Stage:
         include_first = True
         if grid.startswith('-'):
             grid = grid[1:]
-            include_last = False
+            include_first = False
         if grid.endswith('-'):
             grid = grid[:-1]
             include_last = False
